@@ -1,18 +1,19 @@
 """Adapters for USLP primary headers, truncated headers and transfer frames."""
 from __future__ import annotations
 
-from .core import outcome, octs, after_pack, rxbuf, decoded, scramble, owned
+from .core import outcome, octs, after_pack, rxbuf, decoded, scramble, owned, enum_arg
 from .probe import decode_other
 
 
 def mk_hdr(h):
     from spacepackets.uslp.header import (PrimaryHeader, TruncatedPrimaryHeader, SourceOrDestField,
                                           BypassSequenceControlFlag, ProtocolCommandFlag)
+    K = (h["scid"], h["vcid"], h["map"])
     if h["trunc"]:
-        return TruncatedPrimaryHeader(h["scid"], SourceOrDestField(h["srcdst"]), h["vcid"], h["map"])
+        return TruncatedPrimaryHeader(h["scid"], enum_arg(SourceOrDestField, h["srcdst"], K), h["vcid"], h["map"])
     vcf = int.from_bytes(bytes(h["vcf"]), "big") if h["vcflen"] else None
-    return PrimaryHeader(h["scid"], SourceOrDestField(h["srcdst"]), h["vcid"], h["map"], h["flen"],
-                         BypassSequenceControlFlag(h["bypass"]), ProtocolCommandFlag(h["pcc"]), bool(h["ocf"]),
+    return PrimaryHeader(h["scid"], enum_arg(SourceOrDestField, h["srcdst"], K), h["vcid"], h["map"], h["flen"],
+                         enum_arg(BypassSequenceControlFlag, h["bypass"], K), enum_arg(ProtocolCommandFlag, h["pcc"], K), bool(h["ocf"]),
                          h["vcflen"], vcf)
 
 
@@ -92,10 +93,10 @@ def mk_frame(f):
     if not h["trunc"]:
         h["ocf"] = int(bool(f["ocf"]))
     try:
-        upid = UslpProtocolIdentifier(f["upid"])
+        upid = enum_arg(UslpProtocolIdentifier, f["upid"], len(f["tfdz"]))
     except ValueError:
         upid = f["upid"]
-    tfdf = TransferFrameDataField(TfdzConstructionRules(f["rule"]), upid, bytes(f["tfdz"]),
+    tfdf = TransferFrameDataField(enum_arg(TfdzConstructionRules, f["rule"], len(f["tfdz"])), upid, bytes(f["tfdz"]),
                                   f["ptr"][0] if f["ptr"] else None)
     return TransferFrame(mk_hdr(h), tfdf, bytes(f["iz"][0]) if f["iz"] else None,
                          bytes(f["ocf"][0]) if f["ocf"] else None, bytes(f["fecf"][0]) if f["fecf"] else None)
